@@ -957,6 +957,13 @@ class Interp:
             neg = self.binop('sub', n, 0, a[0], set())
             if isinstance(c, Sym): return Sym(z3.If(self.boolof(c), self.term(neg, n), self.term(a[0], n)), n)
             return neg if c else a[0]
+        m = re.match(r'llvm\.(fshl|fshr)\.i(\d+)', nm)
+        if m:
+            n = int(m.group(2)); c = self.concretize(a[2], 'funnel shift amount') % n
+            if c == 0: return a[0] if m.group(1) == 'fshl' else a[1]
+            if m.group(1) == 'fshl': hi = self.binop('shl', n, a[0], c, set()); lo = self.binop('lshr', n, a[1], n - c, set())
+            else: hi = self.binop('shl', n, a[0], n - c, set()); lo = self.binop('lshr', n, a[1], c, set())
+            return self.binop('or', n, hi, lo, set())
         m = re.match(r'llvm\.(ctlz|cttz|ctpop|bswap)\.i(\d+)', nm)
         if m:
             n = int(m.group(2)); x = self.concretize(a[0], nm) if isinstance(a[0], Sym) else a[0]
